@@ -279,9 +279,10 @@ def w3(run, roles):
                "a nested field can be decoded (and its events emitted) before the container's own event", module=mod,
                node=bad[0] if bad else fn, func=w, construct=f"{w} container-first")
         # nothing is yielded before it
-        first = V.yields()[0]
-        run.ob("W3", first is cont[0], f"{w}: the container event is the first thing emitted", "something is yielded before the container event",
-               module=mod, node=first, func=w, construct=f"{w} first yield")
+        others = [y for y in V.yields() if y is not cont[0]]
+        early = [y for y in others if not V.dominates(cont[0], y)]
+        run.ob("W3", not early, f"{w}: the container event is the first thing emitted", "something is yielded before the container event",
+               module=mod, node=early[0] if early else cont[0], func=w, construct=f"{w} first yield")
 
 
 # ------------------------------------------------------------------------------ W4 / W5 (struct walker + framing walkers)
